@@ -733,6 +733,16 @@ def install_loop(e):
     def is_interrupt(a):
         return isinstance(a["e"], ExcVal) and issubclass(a["e"].cls, (KeyboardInterrupt, SystemExit))
 
+    INTERNAL_ERRORS = (AttributeError, TypeError, NameError, LookupError, AssertionError, UnboundLocalError)
+
+    def hd_req(c, a):
+        # what is handed over as the reason of a disconnect is an error of the connection or of a callback, never an internal
+        # error of the library's own code (e.g. an attribute of None): those would be reported to on_error and turn the return
+        # value of a run that simply ended into True (C14)
+        ex = a.get("e")
+        internal = isinstance(ex, ExcVal) and issubclass(ex.cls, INTERNAL_ERRORS) and getattr(ex, "internal", True)
+        return z3.And(APPINV(c, app_of(a)), z3.BoolVal(not internal))
+
     def hd_post(c, old, a, res):
         app = app_of(a)
         env = env_of(a)
@@ -802,7 +812,7 @@ def install_loop(e):
     e.add(Contract(P + RF + "handleDisconnect",
                    cases=[(f"reconnect={'on' if r else 'off'},{'external' if cu else 'builtin'}-dispatcher", hd_case(r, cu))
                           for r in (False, True) for cu in (False, True)],
-                   requires=lambda c, a: APPINV(c, app_of(a)), ensures=hd_post, havoc=hd_havoc,
+                   requires=hd_req, ensures=hd_post, havoc=hd_havoc,
                    normal_when=lambda c, old, a: z3.BoolVal(not is_interrupt(a)),
                    raises=[(KeyboardInterrupt, lambda c, old, a: z3.BoolVal(True), hd_interrupt), (SystemExit, None, hd_interrupt),
                            (Exception, lambda c, old, a: z3.Not(zn(old.getf(app_of(a), "on_error"))), hd_cb_exc)],
@@ -1338,8 +1348,14 @@ def install_run_forever(e):
                                              c.ghost.__setitem__("$bad_settings", bad_settings(c, c, a))),
                    havoc=lambda c, a, old, k: ss.havoc(c, {"$closure": {"self": a["self"]}, "reconnecting": False}, old, 0),
                    modifies=lambda c, a: SS_MODS(c, {"$closure": {"self": a["self"]}}),
+                   # KeyboardInterrupt is not in this list: wherever it is raised (a callback, the transport, time.sleep) the run is
+                   # torn down and run_forever returns (C14)
                    raises=[(X.WebSocketException, bad_settings, refused), (SystemExit, None, rf_sysexit),
-                           (ValueError, None, refused), (KeyboardInterrupt, None, rf_sysexit),
+                           (ValueError, None, refused),
+                           # external dispatcher only: run_forever returns as soon as the callbacks are registered and the run goes on
+                           # inside the dispatcher; an interrupt raised by on_close during the teardown in run_forever's own handler
+                           # (i.e. a second interrupt while the first is being handled) still propagates (DESIGN 10.4)
+                           (KeyboardInterrupt, lambda c, old, a: z3.BoolVal("dispatcher" in a), rf_sysexit),
                            (Exception, lambda c, old, a: z3.Not(zn(old.getf(a["self"], "on_error"))), rf_sysexit)],
                    props=("C14", "C15", "C16"),
                    doc="inconsistent ping settings (timeout <= 0, interval < 0, interval <= timeout) or an already open socket are refused with "
